@@ -3,7 +3,8 @@
 P: automata.peeking push/peek/__next__ (the `sent` accounting every limit is computed from), and three
    FRAGMENTS of the interpreter: state.run's limit -> ending computation (may only shrink), state.run's
    final `sent <= ending` check (last statement of run: every normal completion passes it),
-   state.transition's `limited` decision.
+   state.transition's `limited` decision; dfa repeat cycles: dfa_base.loop, dfa_base.terminal (terminal only after all cycles),
+   the repeat -> final prefix of dfa_base.delegate and the head of its cycle loop (one count per pass).
 B: every library parser machine x limits {0,1,2,n/2,n-1,n,n+1,2n} x inputs; repeat counts on dfa.
 """
 import ast
@@ -11,7 +12,9 @@ import random
 import struct
 
 from pyvc.spec import Spec
-from pyvc.vals import Unsupported
+import z3
+
+from pyvc.vals import Unsupported, OpaqueV, IntV, BoolV, SeqV, NONE, USort
 from . import source_common as SC
 from . import wire
 
@@ -24,9 +27,9 @@ LEVEL_TEXT = ('Bounded stand-in (labelled bounded): limits and repeat counts tak
               'sub-grammar exactly that many times or fails. Discharged deductively for all inputs: peeking push/peek/__next__ accounting and three '
               'fragments of the interpreter (limit -> ending may only shrink and is sent+limit; the final sent <= ending assertion closes every '
               'normal completion of run; `limited` is exactly ending reached).')
-LEVEL_NOTE = ('FRAGMENTS (T9): only the named statements of state.run / state.transition are verified, under a stated pre-state; the generator '
-              'protocol between them, dfa_base.delegate and every parser graph are bounded-only. String/callable limits are resolved by the bounded tier.')
-TECHNIQUE = 'bounded: all library machines x limits/repeats on the real interpreter; deductive fragment contracts (pyvc, z3) on state.run / state.transition limit logic, automata.peeking and automata.chaining (the `sent` count the limits are compared with)'
+LEVEL_NOTE = ('FRAGMENTS (T9): only the named statements of state.run / state.transition / dfa_base.delegate are verified, under a stated pre-state; the generator '
+              'protocol between them, the sub-machine loop of dfa_base.delegate and every parser graph are bounded-only. String/callable limits are resolved by the bounded tier.')
+TECHNIQUE = 'bounded: all library machines x limits/repeats on the real interpreter; deductive fragment contracts (pyvc, z3) on state.run / state.transition limit logic, dfa_base.loop / terminal / delegate repeat-count fragments, automata.peeking and automata.chaining (the `sent` count the limits are compared with)'
 TRUSTED = ['T9 fragment contracts: the rest of state.run / transition is unverified', 'reference encoder contracts/wire.py for the inputs']
 ASSUMPTIONS = ['a dfa is not its own sub-state']
 
@@ -89,8 +92,89 @@ def fragments():
     return [f1, f2, f3]
 
 
+
+# ------------------------------------------------------------------------------------------------ dfa repeat cycles
+def cur_obj(eng, name, st):
+    return eng.fresh_obj('state', {'terminal': 'Bool'}, name, st)
+
+
+DFA_FIELDS = {'cycle': 'Int', 'final': 'Int', '_terminal': 'Bool', 'current': cur_obj}
+
+
+def frag_repeat_prefix(eng, fdef):
+    """dfa_base.delegate, from its first statement up to (not including) `stasis = False`: how many cycles will be run"""
+    body = [s for s in fdef.body if not (isinstance(s, ast.Expr) and isinstance(s.value, ast.Constant))]
+    for i, s in enumerate(body):
+        if isinstance(s, ast.Assign) and ast.unparse(s.targets[0]) == 'stasis':
+            return body[:i]
+    raise Unsupported('stale contract: dfa_base.delegate has no `stasis = False` statement')
+
+
+def frag_cycle_head(eng, fdef):
+    """the first three statements of the body of `while self.loop() and not stasis:` (reset, count the cycle, announce it)"""
+    for n in ast.walk(fdef):
+        if isinstance(n, ast.While) and ast.unparse(n.test) == 'self.loop() and (not stasis)':
+            head = n.body[:3]
+            if [type(x).__name__ for x in head] != ['Expr', 'AugAssign', 'Expr'] or ast.unparse(head[1]) != 'self.cycle += 1':
+                raise Unsupported('stale contract: the cycle loop of dfa_base.delegate does not start with reset / cycle += 1 / yield')
+            others = [x for b in n.body[3:] for x in ast.walk(b) if isinstance(x, (ast.Assign, ast.AugAssign)) and 'self.cycle' in
+                      [ast.unparse(t) for t in (x.targets if isinstance(x, ast.Assign) else [x.target])]]
+            if others:
+                raise Unsupported('stale contract: self.cycle is assigned elsewhere in the cycle loop (line %d)' % others[0].lineno)
+            return head[:2]
+    raise Unsupported('stale contract: dfa_base.delegate has no `while self.loop() and not stasis:` loop')
+
+
+def data_get(eng, recv, name, args, kw, st, n):
+    """data.get(path, 0): whatever the data artifact holds there - an int (_g_dataval) or something that is not an int (None stands for it)"""
+    if isinstance(recv, OpaqueV) and recv.what == 'data' and name == 'get':
+        def gen():
+            for s, isint in eng.fork(st, z3.Bool('_g_data_is_int')):
+                yield s, (IntV(z3.Int('_g_dataval')) if isint else NONE)
+        return gen()
+    return None
+
+
+def tag_is(x, cls):
+    from pyvc.pure import alts_of
+    gs = [g for g, v in alts_of(x) if isinstance(v, cls) and not isinstance(v, BoolV)]
+    return BoolV(z3.Or(*gs) if gs else z3.BoolVal(False))
+
+
+def repeat_specs():
+    loop = Spec('dfa_base.loop', (F, 'dfa_base.loop'), params={}, fields=DFA_FIELDS, cls_name='dfa_base',
+                ensures=[('cycles remain exactly while fewer than `final` were run', 'result == (self.cycle < self.final)')], raises={}, modifies=[], returns='Bool',
+                note='whole function')
+    term = Spec('dfa_base.terminal', (F, 'dfa_base.terminal'), params={}, fields=DFA_FIELDS, cls_name='dfa_base',
+                ensures=[('terminal only when all repeat cycles were run', 'implies(result, self.cycle >= self.final)'),
+                         ('exactly: marked terminal, sub-machine terminal, no cycle left',
+                          'result == (self._terminal and self.current.terminal and self.cycle >= self.final)')],
+                raises={}, modifies=[], callees={'dfa_base.loop': loop, 'loop': loop}, note='whole property getter')
+    pre = Spec('dfa_base.delegate[repeat -> final]', (F, 'dfa_base.delegate'), params={}, fragment=frag_repeat_prefix,
+               fields=dict(DFA_FIELDS, repeat=('Union', ['None', 'Int', 'Str'])), cls_name='dfa',
+               hints=dict(locals={'path': 'Str', 'data': lambda eng, name, st: (OpaqueV(z3.Const('_g_data', USort), 'data'), st)},
+                          value_method=data_get, funcs={'is_int': lambda pe, x: tag_is(x, IntV), 'is_str': lambda pe, x: tag_is(x, SeqV), 'dataval': lambda pe: IntV(z3.Int('_g_dataval')), 'data_is_int': lambda pe: BoolV(z3.Bool('_g_data_is_int'))}),
+               callees={'context': Spec('context', (F, 'state.context'), params={'path': 'Opaque', 'extension': 'Opaque'}, returns='Str'),
+                        'state.context': Spec('context', (F, 'state.context'), params={'path': 'Opaque', 'extension': 'Opaque'}, returns='Str')},
+               ensures=[('no cycle is counted yet', 'self.cycle == 0'),
+                        ('default: one cycle', 'implies(self.repeat is None, self.final == 1)'),
+                        ('a fixed count is taken as it is', 'implies(is_int(self.repeat), self.final == self.repeat)'),
+                        ('a counted repeat takes the integer found in the data', 'implies(is_str(self.repeat), self.final == dataval())')],
+               raises={'AssertionError': 'is_str(self.repeat) and not data_is_int()'},
+               refuses=[('a non-integer count is refused', 'is_str(self.repeat) and not data_is_int()')],
+               modifies=['self.cycle', 'self.final'],
+               note='FRAGMENT (T9): the statements of dfa_base.delegate before its cycle loop (data.get is modelled: an int or not an int)')
+    head = Spec('dfa_base.delegate[one cycle is counted per loop]', (F, 'dfa_base.delegate'), params={}, fragment=frag_cycle_head,
+                fields=dict(DFA_FIELDS, initial=cur_obj), cls_name='dfa_base',
+                ensures=[('each pass of the cycle loop counts exactly one cycle', 'self.cycle == old(self.cycle) + 1'),
+                         ('the count is not touched', 'self.final == old(self.final)')],
+                raises={}, modifies=['self.cycle', 'self.current'], inline=['reset'],
+                note='FRAGMENT (T9): head of the cycle loop; checked on the AST: self.cycle is assigned nowhere else in the loop')
+    return [loop, term, pre, head]
+
+
 def contracts(repo):
-    return SC.peeking_specs() + SC.chaining_specs() + fragments()
+    return SC.peeking_specs() + SC.chaining_specs() + fragments() + repeat_specs()
 
 
 # ------------------------------------------------------------------------------------------------ bounded tier
